@@ -42,6 +42,9 @@ STATE_CODE = {"not_started": 0, "in_progress": 1, "completed": 2, "placeholder_c
 ACTION_CODE = {"continue": 0, "placeholder": 1, "create": 2, "existing": 3}
 TERMINAL = {"completed", "placeholder_cycle", "placeholder_depth", "placeholder_self_ref"}
 CASE_BUDGET_S = 60
+LONG_CHAIN = 600
+LONG_ALLOF = 260
+LONG_ARR = 300
 
 
 # =====================================================================================================
@@ -644,6 +647,21 @@ def depth_cases(thorough: bool) -> list[dict]:
                 for nk in ("oneof", "allof", "map", "anyof"):
                     out.append({"kind": f"nest-{nk}-md{md}", "max_depth": md, "op": None,
                                 "schemas": {"Deep": nest(nk, k, R("Leaf")), "Leaf": {"type": "object", "properties": {"v": dict(PRIM)}}}})
+    # limits 0 and 1 with reference chains of NAMED schemas long enough to exhaust the interpreter stack if they
+    # were not cut (>= 600 schemas; cut at counted depth 1-2 on the unchanged tree, so the traces are short)
+    for md in (0, 1):
+        names = [f"S{i}" for i in range(LONG_CHAIN + 1)]
+        out.append(graph_case(names, [(i, i + 1, "ref") for i in range(LONG_CHAIN)], md=md, kind=f"longchain-ref-md{md}"))
+        # array items: ~6 Python frames per level (300 levels overflow when uncut) and three times the events
+        out.append(graph_case(names[:LONG_ARR + 1], [(i, i + 1, "arr") for i in range(LONG_ARR)], md=md,
+                              kind=f"longchain-arr-md{md}"))
+        # allOf parents: ~6 Python frames per level, so 260 levels already overflow the stack when uncut; the
+        # third-party spec validator run by load_ir is quadratic in the length of an allOf chain (600 -> 45 s)
+        out.append(graph_case(names[:LONG_ALLOF + 1], [(i, i + 1, "ref") for i in range(LONG_ALLOF)], md=md,
+                              shapes={i: "allof" for i in range(LONG_ALLOF)}, kind=f"longchain-allof-md{md}"))
+        # small graphs under the degenerate limits
+        out.append(graph_case(["A", "B", "C"], [(0, 1, "ref"), (1, 2, "arr"), (2, 0, "oneof"), (1, 1, "inl")], md=md,
+                              kind=f"small-md{md}"))
     # anonymous nesting well beyond the default limit but within the interpreter's stack
     for nk, k in (("oneof", 160), ("map", 200)):
         out.append({"kind": f"nest-{nk}-{k}", "max_depth": None, "op": None,
@@ -706,15 +724,31 @@ def main(chk, replay: dict | None = None) -> int:
     results = run_workers(inputs)
     chk.say(f"[C08] implementation runs: {len(inputs)} documents in {time.time() - t0:.1f}s")
     cases = [evaluate(c, r) for c, r in zip(inputs, results)]
-    # spread the heavy traces over the Coq shards (deal by decreasing weight)
+    # spread the heavy traces over the Coq shards: cost ~ events x size of the snapshot that is digested per event
     shard = 60
     nsh = max(1, -(-len(cases) // shard))
-    by_weight = sorted(range(len(cases)), key=lambda i: -sum(len(n) + 1 for n in (cases[i]["_rb"]["used"][-1]["snap"]["parsed"]
-                                                                 if cases[i]["_rb"]["used"] else [])) * 1000
-                       - cases[i]["obs"]["used_events"])
+
+    def weight(c: dict) -> int:
+        used = c["_rb"]["used"]
+        if not used:
+            return 0
+        sn = used[-1]["snap"]
+        return len(used) * (sum(len(n) + 1 for n in sn["parsed"]) + sum(len(k) + 2 for k, _ in sn["states"]) + 10)
+    order = sorted(range(len(cases)), key=lambda i: -weight(cases[i]))
+    heavy, light = order[:3 * nsh], order[3 * nsh:]
     buckets: list[list[int]] = [[] for _ in range(nsh)]
-    for pos, i in enumerate(by_weight):
-        buckets[pos % nsh].append(i)
+    load = [0] * nsh
+    for i in heavy:                      # longest-processing-time first
+        k = min(range(nsh), key=lambda j: load[j])
+        buckets[k].append(i)
+        load[k] += weight(cases[i])
+    it = iter(light)                     # top every bucket up to exactly `shard` cases (the last one gets the rest)
+    for k in range(nsh):
+        while len(buckets[k]) < shard:
+            nxt = next(it, None)
+            if nxt is None:
+                break
+            buckets[k].append(nxt)
     cases = [cases[i] for bk in buckets for i in bk]
     chk.cov["evaluations"] = len(cases)
     chk.cov["distinct_nontrivial"] = len({json.dumps(c["input"], sort_keys=True) for c in cases
